@@ -10,6 +10,11 @@ exec 9>$V/.build/lock; flock 9
 python3 $V/harness/overlay/mkoverlay.py "$GOROOT_" $V/.build/ov || exit 2
 cp /repo/go.sum $V/harness/go.sum 2>/dev/null
 cd $V/harness || exit 2
+# scheduling points at the entry of every function of the module that touches mutated package state
+rm -rf $V/.build/ov/instr; mkdir -p $V/.build/ov/instr
+if ! $GO run ./cmd/instr /repo $V/.build/ov/instr $V/.build/ov/overlay.json >$V/.build/instr.log 2>&1; then
+  cat $V/.build/instr.log >&2; echo "build: instrumentation FAILED (exit 2, not a violation)" >&2; exit 2
+fi
 if ! $GO build -overlay $V/.build/ov/overlay.json -o $V/.build/verifsim ./cmd/verifsim 2>$V/.build/build.log; then
   cat $V/.build/build.log >&2; echo "build: FAILED (exit 2, not a violation)" >&2; exit 2
 fi
